@@ -140,13 +140,23 @@ func (c *FnCtx) sev(sc *specCtx, e *SExpr) *Term {
 		// always sound - if the guess is wrong the proof fails, it cannot pass wrongly
 		// (a renamed receiver, parameter or named result is re-bound in every clause: contracts bind them by position)
 		if len(c.inlineStack) == 0 {
-			if ord, ok := c.eng.localLock[c.fi.Key][e.Name]; ok && (c.hintMode > 0 || (ord >= 0 && ord < c.signatureVars())) {
-				if v := c.localByOrdinal(ord); v != nil {
-					if _, inScope := sc.st.vars[v]; inScope {
-						c.assumptionsUsed["renamed local re-bound in a loop invariant by declaration position: "+e.Name+" -> "+v.Name()] = true
-						return c.readVar(sc.st, v, nil)
-					}
+			// (a name declared several times in the function: the declaration that is in scope where the clause stands)
+			for _, ord := range c.eng.localLock[c.fi.Key][e.Name] {
+				if !(c.hintMode > 0 || (ord >= 0 && ord < c.signatureVars())) {
+					continue
 				}
+				v := c.localByOrdinal(ord)
+				if v == nil {
+					continue
+				}
+				if _, live := sc.st.vars[v]; !live {
+					continue
+				}
+				if sc.site != token.NoPos && v.Parent() != nil && v.Parent().Pos() != token.NoPos && !v.Parent().Contains(sc.site) {
+					continue
+				}
+				c.assumptionsUsed["renamed local re-bound in a loop invariant by declaration position: "+e.Name+" -> "+v.Name()] = true
+				return c.readVar(sc.st, v, nil)
 			}
 		}
 		c.specErr(e, "unknown identifier %s", e.Name)
